@@ -1,0 +1,117 @@
+//go:build verif
+// +build verif
+
+package parsers
+
+// Contracts for govc, the contract-based deductive verifier kept in /verif (see /verif/DESIGN.md).
+// Compiled only under the "verif" build tag. splitAt(s) is the mathematical result of
+// strings.Split(s, "@"); hex/isHex describe encoding/hex (assumed contracts, /verif/spec/deps.spec).
+
+//@ func tokenize
+//@   results tokens, err
+//@   ensures[C12] err == nil ==> tokens != nil && list(tokens) == splitAt(seq(data)) && len(tokens) >= 1 && len(tokens[0]) > 0
+//@   ensures[C12] len(lnth(splitAt(seq(data)), 0)) > 0 ==> err == nil
+//@   modifies new([]string)
+
+//@ func decodeToken
+//@   results decoded, err
+//@   ensures[C12] err == nil ==> hex(seq(decoded)) == seq(token)
+//@   ensures[C12] isHex(seq(token)) ==> err == nil
+
+//@ func (parser *callArgsParser) parseArguments
+//@   results arguments, err
+//@   loop 0 invariant 1 <= i && i <= len(tokens) && len(arguments) == i - 1 && arguments != nil && fresh(arguments)
+//@   loop 0 invariant forall(j, int, 0 <= j && j < i - 1 ==> hex(seq(arguments[j])) == seq(tokens[j + 1]))
+//@   requires len(tokens) >= 1
+//@   ensures[C12] err == nil ==> len(arguments) == len(tokens) - 1 && forall(j, int, 0 <= j && j < len(arguments) ==> hex(seq(arguments[j])) == seq(tokens[j + 1]))
+//@   ensures[C12] forall(j, int, 1 <= j && j < len(tokens) ==> isHex(seq(tokens[j]))) ==> err == nil
+//@   modifies new([][]byte)
+
+//@ func (parser *callArgsParser) ParseData
+//@   results function, arguments, err
+//@   ensures[C10,C12] err == nil ==> seq(function) == lnth(splitAt(seq(data)), 0) && len(function) > 0 && len(arguments) == llen(splitAt(seq(data))) - 1
+//@   ensures[C10,C12] err == nil ==> forall(j, int, 0 <= j && j < len(arguments) ==> hex(seq(arguments[j])) == lnth(splitAt(seq(data)), j + 1))
+//@   ensures[C12] len(lnth(splitAt(seq(data)), 0)) > 0 && forall(j, int, 1 <= j && j < llen(splitAt(seq(data))) ==> isHex(lnth(splitAt(seq(data)), j))) ==> err == nil
+//@   modifies new([]string), new([][]byte)
+
+// lemmaParseWire: a message in the wire format (function name without '@', hex-encoded arguments) parses
+// into exactly the function name and the arguments that were encoded
+func lemmaParseWire(parser *callArgsParser, data string) (string, [][]byte, error) {
+	return parser.ParseData(data)
+}
+
+//@ func lemmaParseWire
+//@   results function, arguments, err
+//@   requires exists(f, bseq, l, blist, n, int, noAt(f) && len(f) > 0 && n >= 0 && seq(data) == wire(f, l, n) && ghostF == f && ghostL == l && ghostN == n)
+//@   ensures[C10,C12] err == nil && seq(function) == ghostF && len(arguments) == ghostN && forall(j, int, 0 <= j && j < ghostN ==> seq(arguments[j]) == lnth(ghostL, j))
+
+//@ func (parser *storageUpdatesParser) CreateDataFromStorageUpdate
+//@   requires forall(j, int, 0 <= j && j < len(storageUpdates) ==> storageUpdates[j] != nil)
+
+//@ func (parser *deployArgsParser) parseCode
+//@   requires len(tokens) >= 3
+//@ func (parser *deployArgsParser) parseVMType
+//@   requires len(tokens) >= 3
+//@ func (parser *deployArgsParser) parseCodeMetadata
+//@   requires len(tokens) >= 3
+
+//@ func (parser *deployArgsParser) parseArguments
+//@   results arguments, err
+//@   loop 0 invariant 3 <= i && arguments != nil && fresh(arguments)
+//@   requires len(tokens) >= 3
+//@   modifies new([][]byte)
+
+//@ func (parser *deployArgsParser) ParseData
+//@   results r, err
+//@   ensures[C12] (err == nil ==> r != nil) && (err != nil ==> r == nil)
+
+//@ func (parser *storageUpdatesParser) GetStorageUpdates
+//@   results r, err
+//@   requires len(data) < 268435456
+//@   loop 0 invariant 0 <= i && i <= len(tokens) && i % 2 == 0 && len(tokens) % 2 == 0 && storageUpdates != nil && fresh(storageUpdates)
+//@   ensures[C12] err != nil ==> r == nil
+
+// ---- ESDT transfer parser: the report equals what the built-in functions debit and credit (C10-iii) -------
+// The per-token (identifier, nonce, value), the receiver and the attached call are stated over the same
+// argument terms as the contracts of the built-in functions in builtInFunctions/zz_contracts_verif.go.
+
+//@ func (e *esdtTransferParser) createNewESDTTransfer
+//@   results t, err
+//@   view nn = beval(seq(args[tokenStartIndex + 1])) % 18446744073709551616
+//@   requires e != nil && !isNil(e.marshalizer) && tokenStartIndex + 2 < len(args) && len(args) < 1048576
+//@   ensures[C12] (err == nil ==> t != nil && t.ESDTValue != nil) && (err != nil ==> t == nil)
+//@   ensures[C10] err == nil ==> fresh(t) && seq(t.ESDTTokenName) == seq(args[tokenStartIndex]) && t.ESDTTokenNonce == nn && t.ESDTTokenType == ite(nn > 0, 1, 0)
+//@   ensures[C10] err == nil && (nn == 0 || isTxAtSender) ==> bigval(t.ESDTValue) == beval(seq(args[tokenStartIndex + 2]))
+//@   ensures[C10] err == nil && nn > 0 && !isTxAtSender ==> bigval(t.ESDTValue) == dVal(seq(args[tokenStartIndex + 2])) && !dValNil(seq(args[tokenStartIndex + 2]))
+//@   modifies failed, new(vmcommon.ESDTTransfer), new(big.Int), new(data_esdt.ESDigitalToken), new(data_esdt.MetaData), new([][]byte)
+
+//@ func (e *esdtTransferParser) parseMultiESDTNFTTransfer
+//@   results r, err
+//@   view atSender = seq(sndAddr) == seq(rcvAddr)
+//@   view st0 = ite(seq(sndAddr) == seq(rcvAddr), 2, 1)
+//@   view nT = beval(seq(args[ite(seq(sndAddr) == seq(rcvAddr), 1, 0)])) % 18446744073709551616
+//@   requires e != nil && !isNil(e.marshalizer) && len(args) < 1048576
+//@   loop 0 invariant i <= nT && len(esdtTransfers.ESDTTransfers) == nT && esdtTransfers != nil && fresh(esdtTransfers) && fresh(esdtTransfers.ESDTTransfers)
+//@   loop 0 invariant forall(j, int, 0 <= j && j < i ==> itemOK(esdtTransfers.ESDTTransfers[j], args, st0 + 3 * j, atSender))
+//@   ensures[C12] (err == nil ==> r != nil) && (err != nil ==> r == nil)
+//@   ensures[C10] err == nil ==> len(r.ESDTTransfers) == nT && len(args) >= 3 * nT + st0 && seq(r.RcvAddr) == ite(atSender, seq(args[0]), seq(rcvAddr))
+//@   ensures[C10] err == nil ==> forall(j, int, 0 <= j && j < nT ==> itemOK(r.ESDTTransfers[j], args, st0 + 3 * j, atSender))
+//@   ensures[C10] err == nil ==> seq(r.CallFunction) == ite(len(args) > 3 * nT + st0, seq(args[3 * nT + st0]), "") && len(r.CallArgs) == ite(len(args) > 3 * nT + st0 + 1, len(args) - (3 * nT + st0 + 1), 0)
+//@   modifies failed, new(vmcommon.ParsedESDTTransfers), new(vmcommon.ESDTTransfer), new(big.Int), new(data_esdt.ESDigitalToken), new(data_esdt.MetaData), new([][]byte), new([]*vmcommon.ESDTTransfer)
+
+//@ func (e *esdtTransferParser) ParseESDTTransfers
+//@   results r, err
+//@   view atSender = seq(sndAddr) == seq(rcvAddr)
+//@   view st0 = ite(seq(sndAddr) == seq(rcvAddr), 2, 1)
+//@   view nT = beval(seq(args[ite(seq(sndAddr) == seq(rcvAddr), 1, 0)])) % 18446744073709551616
+//@   requires e != nil && !isNil(e.marshalizer) && len(args) < 1048576
+//@   ensures[C12] (err == nil ==> r != nil) && (err != nil ==> r == nil)
+//@   ensures[C10] err == nil && seq(function) == "ESDTTransfer" ==> len(r.ESDTTransfers) == 1 && r.ESDTTransfers[0] != nil && seq(r.ESDTTransfers[0].ESDTTokenName) == seq(args[0]) && bigval(r.ESDTTransfers[0].ESDTValue) == beval(seq(args[1])) && r.ESDTTransfers[0].ESDTTokenNonce == 0 && r.ESDTTransfers[0].ESDTTokenType == 0 && seq(r.RcvAddr) == seq(rcvAddr)
+//@   ensures[C10] err == nil && seq(function) == "ESDTTransfer" ==> seq(r.CallFunction) == ite(len(args) > 2, seq(args[2]), "") && len(r.CallArgs) == ite(len(args) > 3, len(args) - 3, 0) && forall(k, int, 3 <= k && k < len(args) ==> seq(r.CallArgs[k - 3]) == seq(args[k]))
+//@   ensures[C10] err == nil && seq(function) == "ESDTNFTTransfer" ==> len(r.ESDTTransfers) == 1 && r.ESDTTransfers[0] != nil && seq(r.ESDTTransfers[0].ESDTTokenName) == seq(args[0]) && r.ESDTTransfers[0].ESDTTokenNonce == beval(seq(args[1])) % 18446744073709551616 && bigval(r.ESDTTransfers[0].ESDTValue) == beval(seq(args[2])) && r.ESDTTransfers[0].ESDTTokenType == 1 && seq(r.RcvAddr) == ite(atSender, seq(args[3]), seq(rcvAddr))
+//@   ensures[C10] err == nil && seq(function) == "ESDTNFTTransfer" ==> seq(r.CallFunction) == ite(len(args) > 4, seq(args[4]), "") && len(r.CallArgs) == ite(len(args) > 5, len(args) - 5, 0) && forall(k, int, 5 <= k && k < len(args) ==> seq(r.CallArgs[k - 5]) == seq(args[k]))
+//@   ensures[C10] err == nil && seq(function) == "MultiESDTNFTTransfer" ==> len(r.ESDTTransfers) == nT && len(args) >= 3 * nT + st0 && seq(r.RcvAddr) == ite(atSender, seq(args[0]), seq(rcvAddr))
+//@   ensures[C10] err == nil && seq(function) == "MultiESDTNFTTransfer" ==> forall(j, int, 0 <= j && j < nT ==> itemOK(r.ESDTTransfers[j], args, st0 + 3 * j, atSender))
+//@   ensures[C10] err == nil && seq(function) == "MultiESDTNFTTransfer" ==> seq(r.CallFunction) == ite(len(args) > 3 * nT + st0, seq(args[3 * nT + st0]), "") && len(r.CallArgs) == ite(len(args) > 3 * nT + st0 + 1, len(args) - (3 * nT + st0 + 1), 0)
+//@   ensures[C10] err == nil ==> seq(function) == "ESDTTransfer" || seq(function) == "ESDTNFTTransfer" || seq(function) == "MultiESDTNFTTransfer"
+//@   modifies failed, new(vmcommon.ParsedESDTTransfers), new(vmcommon.ESDTTransfer), new(big.Int), new(data_esdt.ESDigitalToken), new(data_esdt.MetaData), new([][]byte), new([]*vmcommon.ESDTTransfer)
